@@ -472,6 +472,23 @@ func (env *Env) evalCall(n *ECall) TV {
 		return TV{T: StrAt(arg(0).T, arg(1).T), Typ: types.Typ[types.Uint8]}
 	case "substr":
 		return TV{T: App(SStr, "str_sub", arg(0).T, arg(1).T, arg(2).T), Typ: types.Typ[types.String]}
+	case "lastresult":
+		// lastresult("callee"): first result of the latest call to callee on this path
+		sx, ok := n.Args[0].(*EStr)
+		if !ok {
+			evalFail("lastresult: callee name expected")
+		}
+		for k, t := range env.state.heap {
+			if strings.HasPrefix(k, "last|"+sx.V+"|") {
+				return TV{T: t}
+			}
+		}
+		for k, t := range e.heap0 {
+			if strings.HasPrefix(k, "last|"+sx.V+"|") {
+				return TV{T: t}
+			}
+		}
+		evalFail("lastresult: no call to %s before this point", sx.V)
 	case "strOfBytes":
 		e.declareFun("str_of_arr", []Sort{SInt}, SStr)
 		return TV{T: App(SStr, "str_of_arr", SliceArr(arg(0).T)), Typ: types.Typ[types.String]}
@@ -498,6 +515,15 @@ func (env *Env) evalCall(n *ECall) TV {
 		return TV{T: App(SF64, "i2f", arg(0).T), Typ: types.Typ[types.Float64]}
 	case "isNaN":
 		return TV{T: App(SBool, "fp.isNaN", arg(0).T)}
+	}
+	// name of a pure function (declared with `pure as NAME`)
+	if pf, ok := e.p.Contracts.PureNames[n.Fn]; ok {
+		var args []Term
+		for i := range n.Args {
+			args = append(args, arg(i).T)
+		}
+		rt, rsrt := e.pureResult(pf)
+		return TV{T: e.pureApp(pf, pf.Name, 0, args, rsrt), Typ: rt}
 	}
 	// spec function
 	if sf, ok := e.p.Contracts.Specs[n.Fn]; ok {
@@ -583,4 +609,17 @@ func (e *Enc) specType(s string) (types.Type, Sort) {
 		evalFail("type %q: %v", s, err)
 	}
 	return t, e.sortOf(t)
+}
+
+// pureResult: type and sort of the first result of a pure function (looked up from its signature).
+func (e *Enc) pureResult(fc *FuncContract) (types.Type, Sort) {
+	if fn := e.p.Funcs[fc.Name]; fn != nil {
+		rt := fn.Signature.Results().At(0).Type()
+		return rt, e.sortOf(rt)
+	}
+	if t, ok := e.p.externResult[fc.Name]; ok {
+		return t, e.sortOf(t)
+	}
+	evalFail("pure function %s: result type unknown (not called anywhere?)", fc.Name)
+	return nil, ""
 }
